@@ -2,7 +2,7 @@
    implementation's parse with (a) the parser model and (b) the Spec denotation of the
    derivation tree the string was rendered from. *)
 From Coq Require Import ZArith QArith Qabs String Ascii List Bool.
-From PT Require Import Str Dec Py Loaders Formula FormulaMachine AtomEnv Pyparse TableEnv Grammar.
+From PT Require Import Str Dec Py Loaders Formula FormulaMachine AtomEnv Pyparse TableEnv Mixture PyparseMix Grammar.
 Import ListNotations.
 
 Inductive c01obs :=
@@ -37,18 +37,16 @@ Definition optQ_close (v : pyval) (q : option Q) : bool :=
 
 (* (a) model vs implementation *)
 Definition model_agrees (E : aenv) (T : ptable) (c : c01case) : bool :=
-  match parse_compound E T (k_str c), k_obs c with
-  | Some (ROk f), OForm s _ d _ _ =>
-      (frag_r0 (FGroup (f_struct f)) (FGroup s) && optQ_close d (f_density f))%bool
-  | Some (RErr _), OErr _ => true
-  | None, OErr ParseErr => true
+  match parse_formula E T (k_str c), k_obs c with
+  | RMOk m, OForm s _ d _ _ =>
+      (frag_r0 (FGroup (f_struct (m_f m))) (FGroup s) && optQ_close d (f_density (m_f m)))%bool
+  | RMErr _, OErr _ => true
   | _, _ => false
   end.
 
 Definition model_errkind_agrees (E : aenv) (T : ptable) (c : c01case) : bool :=
-  match parse_compound E T (k_str c), k_obs c with
-  | Some (RErr e), OErr e' => err_eqb e e'
-  | None, OErr e' => err_eqb ParseErr e'
+  match parse_formula E T (k_str c), k_obs c with
+  | RMErr e, OErr e' => err_eqb e e'
   | _, _ => true
   end.
 
